@@ -271,38 +271,47 @@ pub fn random_next(fmt: &str, rng: &mut Rng, n: usize, out: &mut Vec<String>) {
 
 /// positions of all records (and of a final invalid FASTQ record) as a user would index them
 pub fn index_positions(fmt: &str, input: &[u8]) -> Vec<(u64, u64)> {
-    let mut v = vec![];
-    if fmt == "fa" {
-        let mut r = fasta::Reader::new(input);
-        loop {
-            let ok = match r.next() {
-                None => break,
-                Some(x) => x.is_ok(),
-            };
-            if !ok {
-                break;
+    // The index is built with the crate itself (what a user would do).  The generator must never hang or die
+    // because the crate under test does: the source panics after CALL_LIMIT reads, the panic is caught, the
+    // number of records is bounded by the input length; whatever was collected until then is used.
+    use std::cell::RefCell;
+    use std::panic::{catch_unwind, AssertUnwindSafe};
+    let v: RefCell<Vec<(u64, u64)>> = RefCell::new(vec![]);
+    let limit = input.len() + 2;
+    let _ = catch_unwind(AssertUnwindSafe(|| {
+        let src = crate::util::ScriptedReader::new(input.to_vec(), vec![], 0, vec![]);
+        if fmt == "fa" {
+            let mut r = fasta::Reader::new(src);
+            for _ in 0..limit {
+                let ok = match r.next() {
+                    None => break,
+                    Some(x) => x.is_ok(),
+                };
+                if !ok {
+                    break;
+                }
+                if let Some(p) = r.position() {
+                    v.borrow_mut().push((p.line(), p.byte()));
+                }
             }
-            if let Some(p) = r.position() {
-                v.push((p.line(), p.byte()));
+        } else {
+            let mut r = fastq::Reader::new(src);
+            for _ in 0..limit {
+                let (ok, ue) = match r.next() {
+                    None => break,
+                    Some(x) => (x.is_ok(), matches!(x, Err(fastq::Error::UnexpectedEnd { .. }))),
+                };
+                let p = r.position();
+                if !ue {
+                    v.borrow_mut().push((p.line(), p.byte()));
+                }
+                if !ok {
+                    break;
+                }
             }
         }
-    } else {
-        let mut r = fastq::Reader::new(input);
-        loop {
-            let (ok, ue) = match r.next() {
-                None => break,
-                Some(x) => (x.is_ok(), matches!(x, Err(fastq::Error::UnexpectedEnd { .. }))),
-            };
-            let p = r.position();
-            if !ue {
-                v.push((p.line(), p.byte()));
-            }
-            if !ok {
-                break;
-            }
-        }
-    }
-    v
+    }));
+    v.into_inner()
 }
 
 pub fn rand_history(fmt: &str, rng: &mut Rng, input: &[u8], with_seek: bool, len: usize) -> Vec<Op> {
@@ -483,6 +492,20 @@ pub fn generate(family: &str, size: usize, seed: u64) -> Vec<String> {
         "fq_json" => json_cases("fq", &mut rng, size, &mut out),
         "fa_alloc" => alloc_cases("fa", &mut rng, size, &mut out),
         "fq_alloc" => alloc_cases("fq", &mut rng, size, &mut out),
+        "fa_ahist" | "fq_ahist" | "fa_afault" | "fq_afault" => {
+            // reader histories measured by the counting allocator (kind `A`): the same generators as the `R` families
+            let fmt = &family[..2];
+            let mut tmp = vec![];
+            if family.ends_with("hist") {
+                histories(fmt, &mut rng, size, true, 10, &mut tmp);
+            } else {
+                faulty(fmt, &mut rng, size, &mut tmp);
+            }
+            out.extend(tmp.into_iter().map(|l| format!("A{}", &l[1..])));
+        }
+        "pol" => policy_cases(&mut rng, size, &mut out),
+        "fa_amix" => alloc_mixed("fa", &mut rng, size, &mut out),
+        "fq_amix" => alloc_mixed("fq", &mut rng, size, &mut out),
         "fa_cfg" => config_lattice("fa", &mut rng, size, &mut out),
         "fq_cfg" => config_lattice("fq", &mut rng, size, &mut out),
         "fa_recode" => recode_groups("fa", &mut rng, size, &mut out),
@@ -1016,6 +1039,115 @@ pub fn alloc_cases(fmt: &str, rng: &mut Rng, n: usize, out: &mut Vec<String>) {
             cap: cap.max(3),
             pol: PolDesc::Std,
             chunk: *rng.pick(&[0usize, 0, 7]),
+            script: vec![],
+            seek_fails: vec![],
+            ops,
+            input: f,
+        };
+        out.push(c.show());
+    }
+}
+
+/// The built-in policies asked directly (`Q <policy> <capacity>`): every capacity around the thresholds and limits
+/// (t-1, t, t+1, l-t-1 … l+1, 2^23 ± 1, 0, 1, 2, 3) plus random ones.
+pub fn policy_cases(rng: &mut Rng, n: usize, out: &mut Vec<String>) {
+    let big = 1usize << 23;
+    for c in [0, 1, 2, 3, 64, big / 2 - 1, big / 2, big / 2 + 1, big - 1, big, big + 1, 3 * big, (1usize << 40) + 5] {
+        out.push(format!("Q std {}", c));
+    }
+    for _ in 0..n {
+        let t = *rng.pick(&[1usize, 2, 3, 8, 64, 1000, 1 << 16, big]);
+        let l = t * rng.range(1, 9) + rng.below(3);
+        let around = |rng: &mut Rng, x: usize| (x + rng.below(5)).saturating_sub(2);
+        let c = match rng.below(6) {
+            0 => around(rng, t),
+            1 => around(rng, l),
+            2 => around(rng, l.saturating_sub(t)),
+            3 => around(rng, l / 2),
+            4 => around(rng, t / 2),
+            _ => rng.below(4 * l + 4),
+        };
+        match rng.below(3) {
+            0 => {
+                let x = *rng.pick(&[big, big / 2, 7]);
+                out.push(format!("Q std {}", around(rng, x)))
+            }
+            1 => out.push(format!("Q du.{} {}", t, c)),
+            _ => out.push(format!("Q dul.{}.{} {}", t, l, c)),
+        }
+    }
+}
+
+/// Allocation cases with records of DIFFERENT shapes (number and length of lines vary from record to record, a few
+/// records are much larger than the rest), long histories of single reads, set reads into reused and alternating sets,
+/// exact-count reads and seeks back to captured positions; capacities from "largest record just fits" upwards.
+pub fn alloc_mixed(fmt: &str, rng: &mut Rng, n: usize, out: &mut Vec<String>) {
+    for _ in 0..n {
+        let nrec = rng.range(8, 40);
+        let big_every = rng.range(3, 12);
+        let crlf = rng.chance(1, 3);
+        let term: &[u8] = if crlf { b"\r\n" } else { b"\n" };
+        let mut f = vec![];
+        let mut max_rec = 0usize;
+        for i in 0..nrec {
+            let start = f.len();
+            let big = i % big_every == big_every - 1;
+            let hl = rng.range(1, 10);
+            if fmt == "fa" {
+                f.push(b'>');
+                f.extend(rand_bytes(rng, hl, b"abcdef "));
+                f.extend_from_slice(term);
+                let nl = if big { rng.range(4, 12) } else { rng.range(0, 4) };
+                for _ in 0..nl {
+                    let sl = if big { rng.range(10, 60) } else { rng.range(0, 12) };
+                    f.extend(rand_bytes(rng, sl, b"ACGT"));
+                    f.extend_from_slice(term);
+                }
+            } else {
+                let sl = if big { rng.range(40, 300) } else { rng.range(0, 30) };
+                f.push(b'@');
+                f.extend(rand_bytes(rng, hl, b"abcdef "));
+                f.extend_from_slice(term);
+                f.extend(rand_bytes(rng, sl, b"ACGT"));
+                f.extend_from_slice(term);
+                f.push(b'+');
+                f.extend_from_slice(term);
+                f.extend(rand_bytes(rng, sl, b"IJK"));
+                f.extend_from_slice(term);
+            }
+            max_rec = max_rec.max(f.len() - start);
+        }
+        if rng.chance(1, 4) {
+            // no terminator after the last line
+            f.truncate(f.len() - term.len());
+        }
+        let cap = *rng.pick(&[max_rec + 2, max_rec + 2, max_rec * 9 / 8 + 3, max_rec * 2 + 1, max_rec * 3 + 7, 1024, 4096, 65536]);
+        let mut ops = vec![];
+        let nops = rng.range(nrec / 2, nrec + 6);
+        let mode = rng.below(5);
+        for k in 0..nops {
+            let op = match mode {
+                0 => Op::Next,
+                1 => Op::Set(0),
+                2 => Op::Set(k % 2),
+                3 => Op::Exact(rng.below(2), rng.range(1, 5)),
+                _ => match rng.below(8) {
+                    0..=2 => Op::Next,
+                    3 => Op::Set(rng.below(3)),
+                    4 => Op::Exact(rng.below(3), rng.range(1, 6)),
+                    5 => Op::Capture(rng.below(2)),
+                    6 => Op::SeekSlot(rng.below(2)),
+                    _ => Op::Dump(rng.below(3)),
+                },
+            };
+            ops.push(op);
+        }
+        let c = Case {
+            kind: "A".to_string(),
+            fmt: fmt.to_string(),
+            cap: cap.max(3),
+            pol: rng.pick(&[PolDesc::Std, PolDesc::Std, PolDesc::DoubleUntil(64), PolDesc::Add(7)]).clone(),
+            chunk: *rng.pick(&[0usize, 0, 7, 1]),
             script: vec![],
             seek_fails: vec![],
             ops,
